@@ -193,7 +193,7 @@ def draw_history(seed, i, quick, recipe=None):
         segments[0]['P'] = recipe['P_first']
     topt = dict(FIT_OPTS, ignore_previous_eqns=True) if ipe else dict(FIT_OPTS)
     other_basis = rng.choice([b for b in ('ext_maths', 'osc_maths', 'base_e_maths', 'core_maths') if b != runname])
-    tiny = runname in RUN_BASIS
+    tiny = runname == 'verif_tiny'      # only the basis without binary operators is cheap at complexity 10
     if recipe.get('like_oth') is not None:
         like_oth = [dict(cls='Gauss', data_file='data.txt', run_name='oth', data_dir='user2', fn_set=runname),
                     dict(cls='Poisson', data_file='counts.txt', run_name='obs', data_dir='user3', fn_set=runname),
@@ -403,6 +403,10 @@ def draw_history(seed, i, quick, recipe=None):
         kw.update(okw)
         cur().append(['fit', kw])
         observed = dict(kind='fit', stage=stage, runname=runname, compl=n, P=P_obs, like=like_obs, npseed=npseed, kw=okw)
+    # cost guard: no generated history may contain a generation predicted above 3,000 functions (a complexity-10 library of a
+    # basis with binary operators has ~10^6 trees and would stall the check for its whole wall timeout)
+    for sg in segments:
+        sg['program'] = [op for op in sg['program'] if not (op[0] == 'gen' and configs.nfun(op[1].get('basis') or basis_of(op[1]['runname']), op[1]['compl']) > 3000)]
     segments = [s for s in segments if s['program']]
     return dict(segments=segments, observed=observed, data=data, seed=rs, run_seed=rs, policy={'kind': rng.choice(['lowest', 'uniform', 'pct'])},
                 eager=rng.choice([0.0, 0.5, 1.0]), desc=desc, nops=len(desc), npseed=0, ipe=ipe, synth_lib=synth[0])
